@@ -977,6 +977,34 @@ func limitsKnown(img *dirImage, override map[string][]byte) string {
 	return res
 }
 
+// txLogMetadataKnown: at an offset where a record of the pristine tx log starts (the commit log still points
+// there), the mutated file holds a version-1 header whose metadata block runs into F4 (extra attribute longer
+// than the block / than maxExtraLen).
+func txLogMetadataKnown(img *dirImage, override map[string][]byte, txFields map[string][]field) bool {
+	for n, b := range override {
+		if _, ok := img.files[n]; !ok || !strings.HasPrefix(n, "tx/") {
+			continue
+		}
+		for _, f := range txFields[filepath.Base(n)] {
+			if !strings.HasSuffix(f.name, ".ID") || strings.Contains(f.name, ".e") {
+				continue
+			}
+			i := f.off + 8 + 8 + 8 + 32 + 32
+			if i+4 > len(b) || binary.BigEndian.Uint16(b[i:]) != 1 {
+				continue
+			}
+			mdLen := int(binary.BigEndian.Uint16(b[i+2:]))
+			if mdLen == 0 || mdLen > maxTxMetadataLen || i+4+mdLen > len(b) {
+				continue
+			}
+			if mc := classifyTxMetadata(b[i+4 : i+4+mdLen]); mc.known != "" {
+				return true
+			}
+		}
+	}
+	return false
+}
+
 // vLenKnown: an in-place edit gave a tx-log record a value length above the store's MaxValueLen (256 in the fixture).
 func vLenKnown(img *dirImage, override map[string][]byte, txFields map[string][]field) bool {
 	for n, b := range override {
@@ -1525,6 +1553,9 @@ func TestOpenCorruptedDirectories(t *testing.T) {
 		}
 		if known == "" && (comp == "store" || comp == "tbtree") {
 			known = limitsKnown(img, override)
+		}
+		if known == "" && comp == "store" && txLogMetadataKnown(img, override, fx.txFields) {
+			known = kfF4
 		}
 		if known == "" && comp == "store" && vLenKnown(img, override, fx.txFields) {
 			known = kfF22
